@@ -46,6 +46,9 @@ const (
 	flagNone       = 0
 	flagPrepPanic  = 1
 	flagCheckPanic = 2
+	// the rule-check slot first writes a blocked verdict into the pooled result, then panics: the request is
+	// admitted all the same, so it is a passed entry like any other
+	flagCheckBlockThenPanic = 3
 )
 
 type opDef struct {
@@ -69,6 +72,8 @@ func (o opDef) String() string {
 			f = ",prepare-panics"
 		} else if o.Flag == flagCheckPanic {
 			f = ",check-panics"
+		} else if o.Flag == flagCheckBlockThenPanic {
+			f = ",check-writes-block-then-panics"
 		}
 		return fmt.Sprintf("E(%s,%d,%s%s)", o.Res, o.Batch, argNames[o.Args], f)
 	case okTrace:
@@ -169,6 +174,10 @@ type panicCheck struct{}
 
 func (panicCheck) Order() uint32 { return 4500 } // between hotspot and circuit breaker checks
 func (panicCheck) Check(ctx *base.EntryContext) *base.TokenResult {
+	if ctx.Input.Flag == flagCheckBlockThenPanic {
+		ctx.RuleCheckResult.ResetToBlockedWithMessage(base.BlockTypeFlow, "verdict written before the panic")
+		panic("harness rule-check slot panic after writing a verdict")
+	}
 	if ctx.Input.Flag == flagCheckPanic {
 		panic("harness rule-check slot panic")
 	}
@@ -479,7 +488,7 @@ func mkOps(custom, quick bool) []opDef {
 		ops = append(ops, opDef{Kind: okEnter, Res: "r1", Batch: 1}, opDef{Kind: okEnter, Res: "r1", Batch: 3, Args: 1})
 	}
 	if custom {
-		ops = append(ops, opDef{Kind: okEnter, Res: "r1", Batch: 1, Args: 1, Flag: flagCheckPanic},
+		ops = append(ops, opDef{Kind: okEnter, Res: "r1", Batch: 1, Args: 1, Flag: flagCheckPanic}, opDef{Kind: okEnter, Res: "r2", Batch: 1, Flag: flagCheckBlockThenPanic},
 			opDef{Kind: okEnter, Res: "r2", Batch: 1, Flag: flagPrepPanic})
 	}
 	for k := 0; k < nSlots; k++ {
